@@ -1454,6 +1454,11 @@ fn ack_device_data(ackslog: &mut AckLog, outgoing: &mut Outgoing) -> bool {
         return false;
     }
 
+    // A new link collects its ConnAck, and only that, with the first signal: acks that
+    // leave together with it (releases re-sent to a resumed session) need a signal of
+    // their own, or they stay in the buffer until something else is sent
+    let with_connack = acks.len() > 1 && matches!(acks.front(), Some(super::Ack::ConnAck(..)));
+
     let mut count = 0;
     let mut buffer = outgoing.data_buffer.lock();
 
@@ -1469,6 +1474,9 @@ fn ack_device_data(ackslog: &mut AckLog, outgoing: &mut Outgoing) -> bool {
 
     debug!(acks_count = count, "Acks sent to device");
     outgoing.handle.try_send(()).ok();
+    if with_connack {
+        outgoing.handle.try_send(()).ok();
+    }
     true
 }
 
